@@ -202,17 +202,7 @@ impl PoolImpl {
                 }
 
                 // potentially notify child waiting for safe-to-notar
-                if let Some((child_slot, child_hash)) =
-                    self.s2n_waiting_parent_cert.remove(&block_id)
-                    && let Some(output) = self
-                        .slot_state(child_slot)
-                        .notify_parent_certified(child_hash)
-                {
-                    match output {
-                        Either::Left(event) => self.send_votor_event(event).await,
-                        Either::Right((slot, hash)) => self.send_repair((slot, hash)).await,
-                    }
-                }
+                self.notify_waiting_child(&block_id).await;
 
                 // add block to parent-ready tracker, send any new parents to Votor.
                 let new_parents_ready = self.parent_ready_tracker.mark_notar_fallback(&block_id);
@@ -228,8 +218,13 @@ impl PoolImpl {
             }
             Cert::FastFinal(ff_cert) => {
                 info!("fast finalized slot {slot}");
-                let hash = ff_cert.block_hash().clone();
-                let finalization_event = self.finality_tracker.mark_fast_finalized((slot, hash));
+                let block_id = (slot, ff_cert.block_hash().clone());
+
+                // fast-finalization implies notarization,
+                // potentially notify child waiting for safe-to-notar
+                self.notify_waiting_child(&block_id).await;
+
+                let finalization_event = self.finality_tracker.mark_fast_finalized(block_id);
                 self.handle_finalization(finalization_event).await;
             }
             Cert::Final(_) => {
@@ -242,6 +237,23 @@ impl PoolImpl {
         // send to votor for broadcasting
         let event = PoolEvent::CertCreated(cert);
         self.send_votor_event(event).await;
+    }
+
+    /// Notifies the child block (if any) waiting for `parent` to be certified.
+    ///
+    /// Should be called whenever a certificate arrives that certifies `parent`
+    /// as at least notarized-fallback (see [`SlotState::is_notar_fallback_or_stronger`]).
+    async fn notify_waiting_child(&mut self, parent: &BlockId) {
+        if let Some((child_slot, child_hash)) = self.s2n_waiting_parent_cert.remove(parent)
+            && let Some(output) = self
+                .slot_state(child_slot)
+                .notify_parent_certified(child_hash)
+        {
+            match output {
+                Either::Left(event) => self.send_votor_event(event).await,
+                Either::Right((slot, hash)) => self.send_repair((slot, hash)).await,
+            }
+        }
     }
 
     /// Mutably accesses the [`SlotState`] for the given `slot`.
